@@ -4,7 +4,7 @@
    the three receivers consume the same bytes. *)
 From Coq Require Import List NArith ZArith Bool.
 From Cedar Require Import Lib.Bytes Model.Msg Model.Privacy Model.AdWire Model.Literal Proofs.C08 Proofs.C08Wire.
-From Cedar Require Import Proofs.C14Reader Proofs.C14Writer Proofs.C14Roundtrip Proofs.C08Round Proofs.C08Bridge.
+From Cedar Require Import Proofs.C14Reader Proofs.C14Writer Proofs.C14Roundtrip Proofs.C08Round Proofs.C08Bridge Proofs.C09Round.
 Import ListNotations.
 
 (* For EVERY value text (any bytes), whatever strconv says about the range of a real:
@@ -186,3 +186,38 @@ Proof.
   cbv zeta. split; [reflexivity|]. split; [reflexivity|].
   split; [right; reflexivity|]. split; [left; reflexivity|]. split; vm_compute; reflexivity.
 Qed.
+
+(* the complementary stream state of C08_receiver_reconstructs: keyed but not encrypting (secret
+   markers and sealed frames in the message).  Same conclusion, for every ad / option set / whitelist /
+   peer version; proved in Proofs/C09Round.v (also exported as C09_receiver_reassembles). *)
+Theorem C08_receiver_reconstructs_marker : forall (c : config) (a : ad),
+  opt_no_types (c_opts c) = false ->
+  Forall (valid_str true) (ad_exprs c a) ->
+  nul_free (ad_mytype a) -> nul_free (ad_targettype a) -> type_ok (ad_mytype a) -> type_ok (ad_targettype a) ->
+  (Z.of_nat (length (ad_attrs a)) < 2 ^ 62)%Z ->
+  exists t1,
+    get_ad_raw (treader_of true false (s_frames (s_finish (put_ad c (sstate_init true false) a)))) =
+      (t1, MOk (ad_exprs c a, ad_mytype a, ad_targettype a)).
+Proof. exact marker_roundtrip. Qed.
+Print Assumptions C08_receiver_reconstructs_marker.
+
+(* REFUTED without its hypothesis "the name contains no '='": the parsing receiver splits an expression
+   string at the first '='.  Witness: the (quoted) attribute name a=b, rendered unquoted as `a=b = 5`;
+   replayed on the real code by vh-c08 (known finding attr-name-with-equals). *)
+Theorem C08_split_name_refuted :
+  exists name text : bytes, name <> [] /\ trim_space name = name /\
+    split_expr (name ++ [x20; x3d; x20] ++ text) <> Some (name, text).
+Proof. exact split_name_refuted. Qed.
+Print Assumptions C08_split_name_refuted.
+
+(* REFUTED without the hypothesis "no string starts with byte 0xAD" on a length-prefixed stream:
+   0xAD is HTCondor's NULL-string marker.  Witness: type name 0xAD 'f' on an encrypting stream is
+   received as the empty string (known finding binnull-string). *)
+Theorem C08_binnull_refuted :
+  exists (c : config) (a : ad),
+    opt_no_types (c_opts c) = false /\ nul_free (ad_mytype a) /\ ad_mytype a <> [] /\
+    exists t1 es my tg,
+      get_ad_raw (treader_of true true (s_frames (s_finish (put_ad c (sstate_init true true) a)))) = (t1, MOk (es, my, tg))
+      /\ my <> ad_mytype a.
+Proof. exact binnull_refuted. Qed.
+Print Assumptions C08_binnull_refuted.
